@@ -102,6 +102,26 @@ var families = []family{
 	// one that does not follow them rejects the second link.  Either way the cost stays small.
 	{"ptrchain-fan", "v6", false, func(n int) []byte { return msg6(tlv(24, ptrChainFan(n-8, 0))) }},
 	{"ptrchain-fan-short-links", "v6", false, func(n int) []byte { return msg6(tlv(56, tlv(3, ptrChainFan(n-12, 1)))) }},
+	// a compression pointer whose target is an over-long chain of one-octet labels: forward (pointer first) and backward
+	// (chain first, then names that point into it at many offsets)
+	{"ptr-to-long-chain-forward", "v6", false, func(n int) []byte {
+		v := []byte{0xC0, 2}
+		for len(v)+2 <= n-8 {
+			v = append(v, 1, 'a')
+		}
+		return msg6(tlv(24, v))
+	}},
+	{"ptr-to-long-chain-backward", "v6", false, func(n int) []byte {
+		var v []byte
+		for len(v)+2 <= (n-8)/2 {
+			v = append(v, 1, 'a')
+		}
+		v = append(v, 0)
+		for off := 0; len(v)+4 <= n-8; off = (off + 2) % 0x3ffe {
+			v = append(v, 1, 'b', 0xC0|byte(off>>8), byte(off))
+		}
+		return msg6(tlv(24, v))
+	}},
 	{"unterminated-label-chain", "v6", false, func(n int) []byte {
 		var v []byte
 		for len(v)+2 <= n-8 {
